@@ -235,7 +235,7 @@ def extract_scenario(eng, model, vars_):
         except Exception:
             externals.append([name, {'unknown': True}])
     return {'params': params, 'objects': ex.objects, 'externals': externals,
-            'strings': sorted(set(ex.str_names.values()) - {''})}
+            'strings': sorted(set(ex.str_names.values()) | {''})}
 
 
 # =====================================================================================================================
